@@ -10,6 +10,8 @@ import NflowsModel.Lemmas.QuadWhole
 import NflowsModel.Lemmas.TailsWhole
 import NflowsModel.Lemmas.QuadInverseWhole
 import NflowsModel.Lemmas.StructureExecRQTails
+import NflowsModel.Lemmas.CubicInverseWhole
+import NflowsModel.Lemmas.LinWhole
 /-!
 # C17 — out-of-domain inputs are rejected, in-domain inputs never fail
 
@@ -184,5 +186,21 @@ theorem rq_tails_coupling_never_raises (e : Float → ℝ) (c : ElCfg) (hc : NF.
     (B S : Nat) (x params uparams : Array ℝ) (inverse : Bool) :
     (couplingApply (NF.realX e) c mask B S x params inverse none uparams).err = none :=
   NF.StructureExec.coupling_rq_tails_err_none e c hc mask B S x params uparams inverse
+
+/-- **cubic inverse: in-domain inputs never fail**, the output lies in `[left, right]` and the argument of the returned
+    logarithm is positive — whatever root the selection picked (the root is clamped into its bin first) -/
+theorem cubic_inverse_in_domain_total (e : Float → ℝ) (c : CCfg) (uw uh : List ℝ) (udl udr : ℝ)
+    (hv : CubicWhole.CubicValid e c uw uh) (y : ℝ) (hy0 : e c.box.bottom ≤ y) (hy1 : y ≤ e c.box.top) :
+    (∃ r, cubicSpline (NF.realX e) c uw uh udl udr true y = .ok r) ∧
+    CubicInverseWhole.inv e c uw uh udl udr y ∈ Set.Icc (e c.box.left) (e c.box.right) ∧
+    0 < CubicWhole.binD e c uw uh udl udr (CubicInverseWhole.idxH e c uh (CubicInverseWhole.yn e c y))
+          (CubicInverseWhole.rootN e c uw uh udl udr (CubicInverseWhole.yn e c y)) :=
+  ⟨CubicInverseWhole.exec_total hv y hy0 hy1, CubicInverseWhole.inv_mem hv y hy0 hy1, CubicInverseWhole.invLd_arg_pos hv y hy0 hy1⟩
+
+/-- **linear spline: in-domain inputs never fail**, both directions, for every non-empty parameter vector -/
+theorem linear_in_domain_total (e : Float → ℝ) (box : Box) (eps : Float) (up : List ℝ) (hv : LinWhole.LinValid e box eps up) :
+    (∀ x, e box.left ≤ x → x ≤ e box.right → ∃ r, linSpline (NF.realX e) box eps up false x = .ok r) ∧
+    (∀ y, e box.bottom ≤ y → y ≤ e box.top → ∃ r, linSpline (NF.realX e) box eps up true y = .ok r) :=
+  ⟨fun x h0 h1 => ⟨_, LinWhole.exec_ok hv x h0 h1⟩, fun y h0 h1 => ⟨_, LinWhole.inv_exec_ok hv y h0 h1⟩⟩
 
 end Properties.C17
